@@ -44,7 +44,7 @@ Local Notation is_ffi := (Verify.is_ffi metas).
 Local Notation is_entry := (Verify.is_entry metas).
 Local Notation handler := (Verify.handler exct).
 Local Notation handler_ok := (Verify.handler_ok exct certs).
-Local Notation check_norm := (Verify.check_norm exct metas entry certs).
+Local Notation check_norm := (Verify.check_norm prog exct metas entry certs).
 Local Notation check_exc := (Verify.check_exc exct metas certs).
 Local Notation cert_at := (VerifyInv.cert_at certs).
 Local Notation frame_ok := (VerifyInv.frame_ok exct metas certs).
@@ -97,7 +97,7 @@ Proof.
   apply (handler_ok_lt exct certs).
   destruct i; try discriminate.
   - band4 HC H1 H2 H3 H4. exact H4.
-  - band3 HC H1 H2 H3. exact H2.
+  - apply andb_true_iff in HC. destruct HC as [HC _]. band3 HC H1 H2 H3. exact H2.
   - band6 HC H1 H2 H3 H4 H5 H6. exact H6.
 Qed.
 
